@@ -783,7 +783,7 @@ fn run(ctx: &Ctx) -> Report {
 }
 
 fn replay(_ctx: &Ctx, text: &str) -> Result<String, String> {
-    if field(text, "sequential").is_some() {
+    if field(text, "sequential").is_some() || field(text, "sequential-twin").is_some() {
         return seq::replay(text);
     }
     if let Some(n) = field(text, "nfs") {
